@@ -217,3 +217,18 @@ CHECKS.update({
                 text="1-8 (thorough 12) threads per wave, 1-2 waves, each thread calls threadId() 1-5 times around preemption points and stays alive until its wave has reported; ids constant per thread, pairwise distinct across all threads of the process seen in the case, main thread included.",
                 note=SC_NOTE, design_ref="§4 C45", parts=[e1("sync2", "tid")], assumptions=E1_ASSUME),
 })
+
+CHECKS.update({
+    "C18": pool_check("A Future's functor runs once and every getter sees its result",
+                      "Futures over ThreadPool / TaskSet / ConcurrentTaskSet / ImmediateInvoker / NewThreadInvoker x async/not-async x deferred/not-deferred x value/throwing functor, optionally with every worker gated so only waiters can run the functor; 1-3 threads each holding a copy run generated lists over get / wait / wait_for / wait_until / copy+move+destroy / is_ready, the creator may drop its handle early. Functor ledger == 1 (never twice, never zero after teardown, no overlapping executions), nothing reports readiness before the functor finished, all get() calls return the same object / rethrow the functor's exception, the heap-owning result object is destroyed exactly when the last copy goes.",
+                      [e1("future", "fut")], "§4 C18",
+                      technique="PBT over (schedulable, policies, outcome, waiter op lists) under generated dsched schedules; oracle = functor ledger + same-address / same-exception check + result lifetime balance"),
+    "C19": pool_check("Future continuations and combinators respect readiness",
+                      "then() chains of 1-4 links registered after a generated delay (before / during / after completion of the antecedent) on ThreadPool, TaskSet, ConcurrentTaskSet, ImmediateInvoker with and without std::launch::async; when_all over iterators (0-4 inputs, empty and singleton included) and tuples, when_any over iterators and tuples, task-set variants. Each continuation runs exactly once, only after its antecedent's functor finished and with is_ready() true; when_all's result is ready only after every input finished and holds the inputs in order; when_any's index designates a ready input; after taskSet.wait() the result future is ready.",
+                      [e1("future", "then")], "§4 C19",
+                      technique="PBT over combinator forms x registration delay x schedulables under generated dsched schedules; oracle = per-continuation ledger and readiness checks inside the continuation bodies"),
+    "C20": pool_check("Timed waits: ready means done, timeout means time elapsed",
+                      "CompletionEvent::waitFor / waitUntil and Future::wait_for / wait_until with requested timeouts from negative to 3 s in three duration representations and both clocks, a notifier / gate opener firing at a generated virtual instant (before, around, after the deadline, never), injected spurious futex returns; futures created through the constructor and through dispenso::async(pool, policy, f) with every policy combination while the only worker is busy. 'ready' only after notify()/the functor started (finished for futures); 'timeout' only after at least the requested virtual time (tolerance 2 ns: the implementation truncates to whole nanoseconds); a timeout is never reported when completion preceded the call; the timed wait runs a not-started functor on the waiter only if the deferred bit was given.",
+                      [e1("future", "timed")], "§4 C20",
+                      technique="PBT under dsched's virtual clock: exact elapsed-virtual-time predicate, generated notification instants and spurious wakeups"),
+})
